@@ -102,6 +102,9 @@ def run(ctx):
                 ok = any(x[0] == "variant" and x[2] == frozenset(["None"]) and strip(x[1], through_calls=False)[0] == "call" and strip(x[1], through_calls=False)[4] in slocs for x in facts)
                 ctx.verdict(ok, "R10.6", f, "ends-with-source", b.line_at(loc), "Ready(None) only on the source's None edge", "the filter adapter ends its stream on a path that is not the end of the source")
         wakers.check_poll_fn(ctx, "R14.1", f, sites)
+    from . import groups
+    groups.util_buffers(ctx)
+
 
 
 def ret_forms(F, f):
